@@ -63,7 +63,8 @@ def plan(tier, seed):
     meta = dict(
         rule=RULE,
         require=['copies', 'source_unchanged_checks', 'target_checks',
-                 'copy_vars_checks', 'targets_with_dynamic_reordering'] +
+                 'copy_vars_checks', 'targets_with_dynamic_reordering',
+                 'copy_vars_refusals'] +
                 ['entry_' + e for e in ENTRY],
         assumptions=['the target declares every variable in the support '
                      'of the copied function',
@@ -301,6 +302,60 @@ def sampled(ctx, spec):
                                 (dict(fresh.vars), dict(src.vars)))
             monitors.check_order_maps(fresh)
             ctx.counters['copy_vars_checks'] += 1
+            # into a manager that already declares some of the names:
+            # either every source variable ends at its source level, or
+            # the call is refused (`add_var` refuses conflicting levels)
+            pre = _b.BDD()
+            k = rng.randint(1, 3)
+            some = rng.sample(sorted(src.vars), min(k, len(src.vars)))
+            shape = rng.randrange(3)
+            if shape == 2:
+                # the source's order, except that one variable (often the
+                # one at level 0) sits at the bottom and another name
+                # holds its level: the only conflict is that variable
+                by_level = sorted(src.vars, key=src.vars.get)
+                moved = by_level[0] if rng.random() < 0.6 else \
+                    rng.choice(by_level)
+                for v in by_level:
+                    pre.add_var('filler' if v == moved else v)
+                pre.add_var(moved)
+            elif shape == 0:
+                # the same levels as in the source, where possible
+                for v in sorted(src.vars, key=src.vars.get):
+                    if v in some or src.vars[v] == len(pre.vars):
+                        if src.vars[v] == len(pre.vars):
+                            pre.add_var(v)
+                        else:
+                            pre.add_var('other' + v)
+            else:
+                # other levels: first the chosen names, in random order
+                rng.shuffle(some)
+                for v in some:
+                    pre.add_var(v)
+            before_pre = dict(pre.vars)
+            try:
+                if rng.random() < 0.5:
+                    _c.copy_vars(src, pre)
+                else:
+                    pa = _a.BDD()
+                    pa._bdd = pre
+                    pa.vars = pre.vars
+                    _a.copy_vars(src_ab, pa)
+                    del pa
+            except ValueError:
+                ctx.counters['copy_vars_refusals'] += 1
+            else:
+                wrong = {v: (pre.vars.get(v), l) for v, l in src.vars.items()
+                         if pre.vars.get(v) != l}
+                if wrong:
+                    raise Violation('copy_vars',
+                                    'returned-with-other-levels',
+                                    dict(source=dict(src.vars),
+                                         target_before=before_pre,
+                                         target=dict(pre.vars)))
+                ctx.counters['copy_vars_into_declared'] += 1
+                monitors.check_order_maps(pre)
+            # (what a refusal leaves behind is judged in C17)
         entry = rng.choice(ENTRY)
         info = dict(src=so, tgt=to, entry=entry,
                     tables=[sp_n.fmt(t) for t in tabs])
